@@ -156,6 +156,28 @@ def task_view(task) -> dict:
 
 
 def run_job(job: dict) -> dict:
+    """run_job_inner under a wall-clock limit (SIGALRM in the worker's main thread): an optimizer that loops forever on some input (e.g. the partner draw of a
+    one-agent population) becomes a failed observation instead of a hung check"""
+    import signal
+    limit = int(job.get("timeout", 900))
+
+    def _alarm(sig, frm):
+        raise TimeoutError(f"the run did not finish within {limit}s")
+    try:
+        old = signal.signal(signal.SIGALRM, _alarm)
+    except ValueError:                       # not in a main thread: no limit available
+        return run_job_inner(job)
+    signal.alarm(limit)
+    try:
+        return run_job_inner(job)
+    except TimeoutError as e:                # raised outside run_job_inner's own handler (e.g. while a pool shuts down)
+        return {"job": job, "ok": False, "error": {"type": "TimeoutError", "where": "harness", "msg": str(e)}}
+    finally:
+        signal.alarm(0)
+        signal.signal(signal.SIGALRM, old)
+
+
+def run_job_inner(job: dict) -> dict:
     """one optimize() call (or a sequence on one instance) -> observation"""
     import contextlib, io
     obs = {"job": job, "ok": False}
@@ -184,6 +206,8 @@ def run_job(job: dict) -> dict:
                     super().optimization_step()
                     snaps.append([(copy.deepcopy(a.position), a.cost, a.fitness) for a in self._population])
             Snap.__name__ = cls.__name__
+            Snap.__qualname__ = "_Snap_" + cls.__name__; Snap.__module__ = __name__     # picklable by reference: process mode ships bound methods to the
+            globals()[Snap.__qualname__] = Snap                                         # forked workers, which inherit this module's globals
             cls = Snap
         init_log = None
         if job.get("trace_init"):
